@@ -31,6 +31,8 @@ def amount_cases():
                     groups.append(_group(ip, tsep))
                     if not us:
                         groups.append(_group(ip, ' '))
+                        groups.append(_group(ip, '\u00a0'))      # no-break space and narrow no-break space: what CLDR-based exports write as the group separator
+                        groups.append(_group(ip, '\u202f'))
                 for g in groups:
                     body = g + (dsep + dp if dp else '')
                     val = Fraction(int(ip)) + (Fraction(int(dp), 10 ** len(dp)) if dp else 0)
@@ -113,7 +115,7 @@ def spec_amount(cell, sep):
         s = s.replace(c, '')
     s = s.strip()
     if sep == ',':
-        s = s.replace('.', '').replace(' ', '').replace(',', '.')
+        s = s.replace('.', '').replace(' ', '').replace('\u00a0', '').replace('\u202f', '').replace(',', '.')
     else:
         s = s.replace(',', '')
     import re
@@ -215,6 +217,38 @@ def check_file(idx, fi, delim, header, sep='.'):
                     break
 
 
+def check_special_files():
+    """a regular-expression delimiter whose pattern has an optional group (a blank column), and files that start with a UTF-8 byte order mark"""
+    fmt = '{date:%Y-%m-%d}, {description}, {amount}'
+    path = os.path.join(TMP, 'special.txt')
+    # (name, delimiter, has_header, file text, expected (description, amount) in order)
+    cases = [
+        ('regex_optional_group', 'regex:^(\\S+) (\\w+)(?: (-?[\\d.]+))?$', False, '2024-01-01 COFFEE 5.00\n2024-01-02 PENDING\n2024-01-03 MILK 3.00\n', [('COFFEE', 5.0), ('MILK', 3.0)]),
+        ('regex_optional_group_first_row', 'regex:^(\\S+) (\\w+)(?: (-?[\\d.]+))?$', False, '2024-01-02 PENDING\n2024-01-03 MILK 3.00\n', [('MILK', 3.0)]),
+        ('regex_alternation_four_columns', 'regex:^(\\S+) (?:(\\w+)|"([^"]*)") (-?[\\d.]+)$', False, '2024-01-01 COFFEE 5.00\n2024-01-02 "TWO WORDS" 6.00\n2024-01-03 MILK 3.00\n', [('COFFEE', 5.0), ('MILK', 3.0)]),
+        ('bom_no_header', None, False, '\ufeff2024-01-01,ALPHA,5.00\n2024-01-02,BETA,6.00\n', [('ALPHA', 5.0), ('BETA', 6.0)]),
+        ('bom_header', None, True, '\ufeffDate,Description,Amount\n2024-01-01,ALPHA,5.00\n2024-01-02,BETA,6.00\n', [('ALPHA', 5.0), ('BETA', 6.0)]),
+        ('bom_semicolon_no_header', ';', False, '\ufeff2024-01-01;ALPHA;5.00\n2024-01-02;BETA;6.00\n', [('ALPHA', 5.0), ('BETA', 6.0)]),
+        ('bom_regex_no_header', 'regex:^(\\S+) (\\w+) (-?[\\d.]+)$', False, '\ufeff2024-01-01 ALPHA 5.00\n2024-01-02 BETA 6.00\n', [('ALPHA', 5.0), ('BETA', 6.0)]),
+    ]
+    for name, delim, header, text, want in cases:
+        O.case(('special', name))
+        w = {'fn': 'parse_generic_csv', 'special': name, 'delimiter': delim, 'has_header': header, 'file_text': text}
+        with open(path, 'w', encoding='utf-8') as f:
+            f.write(text)
+        src = {'name': 'Bank', 'file': path, 'format': '{date:%Y-%m-%d}, {description}, {_}, {amount}' if 'four_columns' in name else fmt, 'has_header': header}
+        if delim:
+            src['delimiter'] = delim
+        spec = resolve_source_format(src)['_format_spec']
+        try:
+            got = [(t['raw_description'], t['amount']) for t in parse_generic_csv(path, spec, [], source_name='Bank')]
+        except Exception as e:
+            O.fail('C05.parse_generic_csv.raises', w, want, '%s: %s' % (type(e).__name__, e), 'parse_generic_csv on the file text given')
+            continue
+        if got != want:
+            O.fail('C05.parse_generic_csv.rows', w, want, got, 'parse_generic_csv on the file text given')
+
+
 def check_source_settings():
     """per-source overrides land on that source's FormatSpec only"""
     fmt = FORMATS[0][0]
@@ -244,11 +278,14 @@ def main():
                     pass
             elif w.get('fn') == 'resolve_source_format':
                 check_source_settings()
+            elif 'special' in w:
+                check_special_files()
             else:
                 check_file(w['rows'], w['format'], w['delimiter'], w['has_header'])
             O.finish()
         check_amounts()
         check_source_settings()
+        check_special_files()
         n = len(ROWS)
         # every single row, every pair (row independence), and a few long interleavings
         combos = [[i] for i in range(n)] + [list(p) for p in itertools.permutations(range(n), 2) if (p[0] + p[1] + O.seed) % (1 if O.tier != 'quick' else 3) == 0]
